@@ -4,6 +4,7 @@
 //   case   : <tag> <expr> <hexbuf> <pos>
 //            expr (prefix, no blanks):  .XY seq   |XY alt   *X star   !X not
 //                                       U any-ascii   =hh byte==hh   ~hh byte!=hh   [llhh ll<=byte<=hh
+//                                       ^G raw operand with guard G (see RawChar below)
 //   output : ok <tree> <cursor> | err <kind> <cursor> | skip
 //            tree: (c hh s e) (p A B s e) (l A s e) (r A s e) (s A1 .. An s e) (u s e)
 //
@@ -15,7 +16,8 @@
 use parsley_rust::pcore::parsebuffer::{
     LocatedVal, ParseBuffer, ParseBufferT, ParseResult, ParsleyParser,
 };
-use parsley_rust::pcore::prim_ascii::AsciiChar;
+use parsley_rust::pcore::parsebuffer::{locate_value, parse_prim, ErrorKind};
+use parsley_rust::pcore::prim_ascii::{AsciiChar, AsciiCharPrimitive};
 use parsley_rust::pcore::prim_combinators::{Alt, Alternate, Not, Sequence, Star};
 use verif_harness::*;
 
@@ -30,6 +32,7 @@ enum Guard {
 #[derive(Clone, Debug)]
 enum Expr {
     Chr(Guard),
+    Raw(Guard),
     Seq(Box<Expr>, Box<Expr>),
     Alt(Box<Expr>, Box<Expr>),
     Star(Box<Expr>),
@@ -46,6 +49,37 @@ enum Tree {
     Unit,
 }
 type LV = LocatedVal<Tree>;
+
+fn holds(g: &Guard, c: char) -> bool {
+    match g {
+        Guard::Any => true,
+        Guard::Eq(b) => c == *b as char,
+        Guard::Ne(b) => c != *b as char,
+        Guard::Range(lo, hi) => *lo as char <= c && c <= *hi as char,
+    }
+}
+
+// A *raw* operand: a single-byte parser written in the style of the crate's hand-written parsers
+// that do not put the cursor back when they fail (it is NOT part of the crate).  It consumes the
+// byte with the crate's parse_prim and then applies the guard.  Used as an operand of the real
+// combinators so that the restores the combinators perform themselves are observable.
+struct RawChar {
+    g: Guard,
+}
+impl ParsleyParser for RawChar {
+    type T = LocatedVal<char>;
+
+    fn parse(&mut self, buf: &mut dyn ParseBufferT) -> ParseResult<Self::T> {
+        let start = buf.get_cursor();
+        let c = parse_prim::<AsciiCharPrimitive>(buf)?;
+        if !holds(&self.g, c) {
+            let end = buf.get_cursor();
+            return Err(locate_value(ErrorKind::GuardError("raw".to_string()), start, end))
+        }
+        let end = buf.get_cursor();
+        Ok(LocatedVal::new(c, start, end))
+    }
+}
 
 struct Dyn<'e> {
     e: &'e Expr,
@@ -65,6 +99,11 @@ impl<'e> ParsleyParser for Dyn<'e> {
                         lo as char <= *c && *c <= hi as char
                     })),
                 };
+                let v = p.parse(buf)?;
+                Ok(LocatedVal::new(Tree::Ch(*v.val()), v.start(), v.end()))
+            },
+            Expr::Raw(g) => {
+                let mut p = RawChar { g: g.clone() };
                 let v = p.parse(buf)?;
                 Ok(LocatedVal::new(Tree::Ch(*v.val()), v.start(), v.end()))
             },
@@ -150,6 +189,10 @@ fn parse_expr(b: &[u8], i: &mut usize, depth: usize) -> Option<Expr> {
                 Expr::Alt(Box::new(x), Box::new(y))
             })
         },
+        b'^' => match parse_expr(b, i, depth + 1)? {
+            Expr::Chr(g) => Some(Expr::Raw(g)),
+            _ => None,
+        },
         b'*' => Some(Expr::Star(Box::new(parse_expr(b, i, depth + 1)?))),
         b'!' => Some(Expr::Not(Box::new(parse_expr(b, i, depth + 1)?))),
         _ => None,
@@ -160,7 +203,7 @@ fn parse_expr(b: &[u8], i: &mut usize, depth: usize) -> Option<Expr> {
 // every star body syntactically consumes.  Same definition as Spec/Peg.lean.
 fn consumes(e: &Expr) -> bool {
     match e {
-        Expr::Chr(_) => true,
+        Expr::Chr(_) | Expr::Raw(_) => true,
         Expr::Seq(a, b) => consumes(a) || consumes(b),
         Expr::Alt(a, b) => consumes(a) && consumes(b),
         Expr::Star(_) | Expr::Not(_) => false,
@@ -168,7 +211,7 @@ fn consumes(e: &Expr) -> bool {
 }
 fn star_bodies_consume(e: &Expr) -> bool {
     match e {
-        Expr::Chr(_) => true,
+        Expr::Chr(_) | Expr::Raw(_) => true,
         Expr::Seq(a, b) | Expr::Alt(a, b) => star_bodies_consume(a) && star_bodies_consume(b),
         Expr::Star(a) => consumes(a) && star_bodies_consume(a),
         Expr::Not(a) => star_bodies_consume(a),
